@@ -21,7 +21,8 @@ theorem fits_respects (cc : CharClass) : ∀ (t : Wd), t.Fits = true → ∀ w, 
     simp only [Wd.Fits, Bool.and_eq_true, Option.isNone_iff_eq_none] at hf
     obtain ⟨hcw, hf⟩ := hf
     subst hcw
-    exact respects_list cc st cm cols sp kp u nw items w (fitsList_respects cc items hf)
+    exact respects_list cc st cm cols sp kp u nw items w
+      (fun _ hi => fitsList_respects cc items hf _ (List.getElem_mem hi) _)
 theorem fitsList_respects (cc : CharClass) : ∀ (items : List Wd), fitsList items = true →
     ∀ it ∈ items, ∀ w, RespectsWidth cc it w
   | [], _, it, hit, _ => by cases hit
